@@ -5,7 +5,8 @@
 EXTENDS Naturals, Sequences, FiniteSets, TLC
 
 CONSTANTS MaxBlocks,      \* blocks per document
-          Rich            \* TRUE: the larger shape sets
+          Rich,           \* TRUE: the larger shape sets
+          Mode            \* "blocks": the block-shape universe; "headings": heading-level sequences with / without payload
 
 VARIABLE blocks
 
@@ -41,7 +42,10 @@ BlockShapes ==
     \cup ListShapes \cup TableShapes
     \cup { <<"sdt", <<P1>>>>, <<"tbx", <<P1>>>>, <<"sdt", <<P1, P1>>>> }
 
-Init == blocks \in UNION { [1..n -> BlockShapes] : n \in 1..MaxBlocks }
+\* heading-section documents (C03): every sequence of headings (levels 1..3) and plain paragraphs
+HeadingShapes == { <<"h", lv, <<R>>>> : lv \in 1..3 } \cup { P1 }
+
+Init == blocks \in UNION { [1..n -> (IF Mode = "headings" THEN HeadingShapes ELSE BlockShapes)] : n \in 1..MaxBlocks }
 Next == UNCHANGED blocks
 Spec == Init /\ [][Next]_blocks
 =============================================================================
